@@ -197,13 +197,13 @@ func (r c15Round) String() string {
 }
 
 type c15Run struct {
-	handed  []uint64          // S offsets in order
-	payload map[uint64]string // offset -> payload seen
-	ended   map[uint64]bool   // E offsets
-	killed  string
-	clean   bool
+	handed   []uint64          // S offsets in order
+	payload  map[uint64]string // offset -> payload seen
+	ended    map[uint64]bool   // E offsets
+	killed   string
+	clean    bool
 	graceful bool
-	errs    []string
+	errs     []string
 	appended []uint64
 }
 
@@ -261,8 +261,8 @@ func c15Scenario(c *fw.Ctx, idx int, rounds []c15Round) {
 		}
 		return out
 	}
-	var lastEnded int64 = -1   // c: greatest offset whose callback returned in an earlier run
-	var lastHanded int64 = -1  // greatest offset handed in an earlier run
+	var lastEnded int64 = -1  // c: greatest offset whose callback returned in an earlier run
+	var lastHanded int64 = -1 // greatest offset handed in an earlier run
 	prevGraceful := false
 	everHanded := map[uint64]bool{}
 	everPayload := map[uint64]string{}
@@ -407,6 +407,8 @@ func runC15(c *fw.Ctx) {
 		}
 		scen = append(scen, []c15Round{{appendBefore: 2100, killPoint: p, killOffset: 999 + int64(pi%3)}, {killPoint: p, killOffset: 1999 + int64(pi%3)}, {killPoint: points[(pi+1)%4], killOffset: 2000}, {appendBefore: 30, stopAfter: 50}, {final: true}})
 	}
+	// a consumer far behind the head of the log when it crosses the truncation points
+	scen = append(scen, []c15Round{{appendBefore: 3100, killPoint: "afterPersist", killOffset: 2000}, {killPoint: "beforeCallback", killOffset: 3000}, {final: true}})
 	if !c.Quick() {
 		rg := c.SubRng("c15", 0)
 		for i := 0; i < 220; i++ {
